@@ -97,6 +97,8 @@ def case_split(pieces, facts, max_conds=3):
         for c, val in zip(conds, choice):
             f2 += affine.guard_constraints([c if val else sym.unop("!", c)])
             desc.append(("%s" if val else "!(%s)") % sym.show(c))
+        if conds and affine.infeasible(f2):
+            continue            # contradictory combination of conditions: not a case
         mapping = {}
         for p in pieces:
             for t in _piece_terms(p):
